@@ -269,7 +269,7 @@ def malformed_closed_bracket(p):
         body = p[i + 1:e - 1]
         for m in re.finditer(r"\[([:.=])", body):
             if m.group(1) != ":":
-                return True
+                continue    # collating symbols / equivalence classes are valid in bash: a known finding, not malformed
             k = body.find(":]", m.end())
             if k < 0 or body[m.end():k] not in CLASSES:
                 return True
@@ -297,11 +297,15 @@ def classify(p, cfg, go, bash_bits):
             return "error_on_valid_pattern", "class_opener_in_unclosed_bracket_is_error"
         if ext and "!(" in p and ("extglob !" in err or "multiple extglob" in err or err.startswith("NEG")):
             return "error_on_valid_pattern", "negated_extglob_unsupported_context"
+        if err == "charClass invalid" and re.search(r"\[[.=]", p) and not malformed_closed_bracket(p):
+            return "error_on_valid_pattern", "collating_symbol_or_equivalence_class_is_error"
         if err in ("charClass invalid",) or err.startswith("invalid range"):
             if malformed_closed_bracket(p):
                 return None, None      # a syntax error for a malformed pattern: allowed by the property
         return "error_on_valid_pattern", None
     # no error: the language differs
+    if cfg == "fold" and ("[:upper:]" in p or "[:lower:]" in p):
+        return "language_differs", "nocase_folds_upper_lower_classes"
     if has_unclosed_bracket_ending_in_dash(p):
         return "language_differs", "unclosed_bracket_ending_in_range_operator"
     if ext and groups:
@@ -331,7 +335,9 @@ def classify(p, cfg, go, bash_bits):
 # ------------------------------------------------------------------ legs
 def code_leg(ctx, binp, n_tokens):
     rc, rows, err = ctx.jsonl([binp, "code", "-seed", str(ctx.seed), "-n", str(n_tokens), "-tier", ctx.tier], timeout=900)
-    if rc != 0 or not rows:
+    rcw, wrows, errw = ctx.jsonl([binp, "codelist", "-seed", str(ctx.seed), "--"] + WITNESSES, timeout=900)
+    rows = wrows + rows
+    if rc != 0 or rcw != 0 or not rows:
         ctx.broken.append(("harness-run", "c17 code failed rc=%d %s" % (rc, err[-600:])))
         return
     items, idx = [], []
@@ -430,12 +436,21 @@ def spec_leg(ctx, spec_cases):
         if fb & 1 and classify(p, "ext", {"bits": ""}, b)[1] == "wildcard_before_unclosed_extglob":
             known += 1
             continue
+        if re.search(r"\[[.=]", p):      # collating symbols / equivalence classes are not transliterated in GlobSpec.v
+            known += 1
+            continue
         mism.append({"pattern": p, "flags": fb, "bash": b[:40]})
     ctx.leg("oracle:Pattern/GlobSpec.v glob_spec vs real bash 5.2 (vm_compute)", len(items) - known, mism,
-            note="%d cases outside the spec's transliterated domain (wildcard before an unclosed extglob group) not compared" % known)
+            note="%d cases outside the spec's transliterated domain (wildcard before an unclosed extglob group, [. .] / [= =] elements) not compared" % known)
 
 
-WITNESSES = ["\\", "a\\", "[a-", "[[:", "x!(a)*", "**(", "@(()", "!(a)@(b)", "*(a", "[+-\\*]"]
+WITNESSES = ["\\", "a\\", "[a-", "[[:", "x!(a)*", "**(", "@(()", "!(a)@(b)", "*(a", "[+-\\*]", "*@()",
+             "[-*]", "@(a", "[a-\\]]", "a!(b)c", "!(a|b)", "x!(*.c)", "+(a|b)c", "?(a)b", "*(ab|c)", "@(a|b|)", "a[!b-d]?", "[]-a]",
+             "[a\\]b]", "**/a", "a/**", ".[!.]*"]
+# every character class once, plain and negated, plus an invalid and a collating one (pinned)
+for _k in ("alnum", "alpha", "ascii", "blank", "cntrl", "digit", "graph", "lower", "print", "punct", "space", "upper", "word", "xdigit", "foo"):
+    WITNESSES += ["[[:%s:]]" % _k, "x[![:%s:]0]" % _k]
+WITNESSES += ["[[.a.]]", "[[=a=]]", "[a[:digit:]_]*"]
 
 
 def run(ctx):
@@ -450,7 +465,7 @@ def run(ctx):
                 "over the pattern's first 4 distinct runes + 'a' (+ upper case for nocasematch), in three configurations "
                 "(extglob matcher vs [[ ]], plain Regexp vs case with extglob off, NoGlobCase vs nocasematch); "
                 "non-trivial = distinct (pattern, config) whose pattern has * ? [ or (")
-    code_leg(ctx, binp, 120 if quick else 1500)
+    code_leg(ctx, binp, 60 if quick else 1500)
     # ---- search
     rc, rows, err = ctx.jsonl([binp, "enum", "-n", "3" if quick else "4", "-seed", str(ctx.seed), "-tier", ctx.tier], timeout=1800)
     rc2, trows, err2 = ctx.jsonl([binp, "tokens", "-n", "4000", "-seed", str(ctx.seed), "-tier", ctx.tier], timeout=1800)
